@@ -47,6 +47,67 @@ func splitAtMLL(content []byte, mll int) []byte {
 	return out.Bytes()
 }
 
+// permittedOutput reports whether out equals content with a newline inserted
+// at some subset of the positions that follow a run of k*mll consecutive
+// non-newline bytes ("the only permitted difference"): the statement permits
+// the inserted newlines, it does not demand them.
+func permittedOutput(content, out []byte, mll int) bool {
+	if bytes.Equal(out, splitAtMLL(content, mll)) {
+		return true
+	}
+	type st struct{ i, j int }
+	seen := map[st]bool{}
+	var rec func(i, j, run int) bool
+	rec = func(i, j, run int) bool {
+		for {
+			boundary := run > 0 && run%mll == 0
+			if boundary {
+				k := st{i, j}
+				if seen[k] {
+					return false
+				}
+				seen[k] = true
+				// alternative 1: an inserted newline is present here
+				if j < len(out) && out[j] == '\n' && rec2(rec, content, out, i, j+1) {
+					return true
+				}
+				// alternative 2: none inserted; fall through
+			}
+			if i == len(content) {
+				return j == len(out)
+			}
+			if j >= len(out) || content[i] != out[j] {
+				return false
+			}
+			if content[i] == '\n' {
+				run = 0
+			} else {
+				run++
+			}
+			i++
+			j++
+		}
+	}
+	return rec(0, 0, 0)
+}
+
+// rec2 continues matching after an inserted newline was consumed: the run
+// length keeps counting towards the next multiple of mll, but the position
+// itself must not offer the insertion again.
+func rec2(rec func(i, j, run int) bool, content, out []byte, i, j int) bool {
+	if i == len(content) {
+		return j == len(out)
+	}
+	if j >= len(out) || content[i] != out[j] {
+		return false
+	}
+	run := 1
+	if content[i] == '\n' {
+		run = 0
+	}
+	return rec(i+1, j+1, run)
+}
+
 func genLineLen(r *Rand, mll int) int {
 	switch r.Intn(12) {
 	case 0:
@@ -316,11 +377,11 @@ func c01Run(t *testing.T, s Scenario, src verifsim.DecisionSource, keep bool) *R
 	}
 	expected := splitAtMLL(sc.Content, sc.Cfg.MLL)
 	if sc.Plain {
-		if !bytes.Equal(stdout, expected) {
+		if !permittedOutput(sc.Content, stdout, sc.Cfg.MLL) {
 			// known finding F-C01-longline-warning, discounted narrowly: exactly
 			// the warning records are removed, everything else must still match
 			if tolerated("line-longer-than-mll") {
-				if stripped := longLineWarning.ReplaceAll(stdout, nil); !bytes.Equal(stripped, stdout) && bytes.Equal(stripped, expected) {
+				if stripped := longLineWarning.ReplaceAll(stdout, nil); !bytes.Equal(stripped, stdout) && permittedOutput(sc.Content, stripped, sc.Cfg.MLL) {
 					res.Known = append(res.Known, "line-longer-than-mll")
 					return res
 				}
@@ -345,7 +406,7 @@ func c01Run(t *testing.T, s Scenario, src verifsim.DecisionSource, keep bool) *R
 	for _, rc := range recs {
 		got.Write(rc.Content)
 	}
-	if !bytes.Equal(got.Bytes(), expected) {
+	if !permittedOutput(sc.Content, got.Bytes(), sc.Cfg.MLL) {
 		res.Class = "bytes-differ"
 		res.Message = diffMsg(expected, got.Bytes())
 	}
